@@ -29,7 +29,7 @@ def stepOp (q : PQ) (tok : String) : Except String (PQ × String) :=
     | some n =>
       match q.read n with
       | (.ok bs, k, q') => .ok (q', s!"ok:{k}:{toHex bs}")
-      | (.short bs, k, q') => .ok (q', s!"short:{k}:{toHex bs}")
+      | (.short _, k, q') => .ok (q', s!"short:{k}")
       | (.panic, _, _) => .error "panic"
     | none => .error "bad-op"
   | ["u", w] =>    -- typed little-endian read of width w
